@@ -19,7 +19,7 @@ VFX = os.environ.get("VERIF_VFX", "/verif/.cache/vfx-target/release/vfx")
 
 
 # zero-argument `&self` observers of dependency / crate types: modelled as uninterpreted functions of the receiver
-PURE_GETTERS = {"to_bits", "to_bytes", "size", "is_zero", "is_empty", "degree", "is_identity", "is_on_curve", "is_torsion_free", "is_some", "is_none",
+PURE_GETTERS = {"to_be_bytes", "to_le_bytes", "to_bits", "to_bytes", "size", "is_zero", "is_empty", "degree", "is_identity", "is_on_curve", "is_torsion_free", "is_some", "is_none",
                 "max_degree", "constraints", "unwrap"}
 
 
@@ -185,6 +185,10 @@ SKIP = object()   # a statement compiled out by #[cfg(..)]
 def canon(v):
     if isinstance(v, Poly):
         n = v.norm()
+        if not n:
+            return "int:0"
+        if len(n) == 1 and () in n and n[()] < (1 << 64):
+            return f"int:{n[()]}"
         if len(n) == 1:
             (m, c), = n.items()
             if c == 1 and len(m) == 1 and m[0][1] == 1:
@@ -196,7 +200,7 @@ def canon(v):
         return f"int:{v}"
     if isinstance(v, VLabel):
         return f"label:{v.s}"
-    if isinstance(v, VOpaque):
+    if isinstance(v, (VOpaque, VStream)):
         return v.canon()
     if isinstance(v, (VArr, VIter)):
         return "[" + ", ".join(canon(x) for x in v.items) + "]"
@@ -254,6 +258,23 @@ def as_poly(v):
 class Return(Exception):
     def __init__(self, v):
         self.v = v
+
+
+class ClosureCaptured(Exception):
+    """closure-unit mode: the `let NAME = |..| ..` statement of the unit's closure has been reached"""
+
+    def __init__(self, cl):
+        self.cl = cl
+
+
+class VStream:
+    """a `&mut &[u8]` reader cursor handed to a closure under contract: reads / splits / `*buf = rest` are trace events"""
+
+    def __init__(self, name):
+        self.name = name
+
+    def canon(self):
+        return f"stream({self.name})"
 
 
 class NeedDecision(Exception):
@@ -425,6 +446,10 @@ class Interp:
                 return self.let_else(st, env)
             v = self.expr(st["init"], env) if st["init"] is not None else None
             self.bind(st["pat"], v, env)
+            if isinstance(v, VClosure):
+                v.name = st["pat"].get("name")
+                if getattr(self, "capture_closure", None) and v.name == self.capture_closure:
+                    raise ClosureCaptured(v)
             return UNIT
         if k == "expr":
             e = st["expr"]
@@ -482,6 +507,9 @@ class Interp:
 
     def e_bool(self, e, env):
         return bool(e["v"])
+
+    def e_str(self, e, env):
+        return VLabel(e["v"])
 
     def e_bytestr(self, e, env):
         return VLabel(e["v"])
@@ -627,6 +655,9 @@ class Interp:
             if isinstance(inner, VRefCell):
                 inner.arr.items[inner.idx] = val
                 return
+            if isinstance(inner, VStream):
+                self.ctx.event("advance", inner.canon(), canon(val))
+                return
             return self.assign(target["e"], val, env)
         self.fail(target, f"assignment target {k}")
 
@@ -671,8 +702,14 @@ class Interp:
                 return Sym(f"{b.path}[{i}]")
             if isinstance(i, Sym):
                 return Sym(f"{b.path}[{i.path}]")
+        if isinstance(b, VOpaque) and b.name == "slice" and isinstance(i, VRange):
+            # slice of a slice: offsets compose
+            b0, lo0, hi0 = b.args
+            lo = as_poly(lo0) + (as_poly(i.lo) if i.lo is not None else C(0))
+            hi = (as_poly(lo0) + as_poly(i.hi)) if i.hi is not None else hi0
+            return VOpaque("slice", [b0, lo, hi])
         if isinstance(b, (Sym, VOpaque)) and isinstance(i, VRange):
-            return VOpaque("slice", [b, 0 if i.lo is None else i.lo, "end" if i.hi is None else i.hi])
+            return VOpaque("slice", [b, as_poly(i.lo) if i.lo is not None else C(0), "end" if i.hi is None else as_poly(i.hi)])
         if isinstance(b, VOpaque) and isinstance(i, (int, Sym, VOpaque)):
             return VOpaque("idx", [b, i])
         if isinstance(b, VCoeffVec) and isinstance(i, int):
@@ -924,6 +961,9 @@ class Interp:
         if isinstance(v, Poly) and v.is_zero():
             # `vec![BlsScalar::zero(); n]` with symbolic n: the zero coefficient vector (of that length)
             return VCoeffVec(C(0), 0, 0, known_len=False)
+        if isinstance(v, int) and v == 0:
+            # `vec![0u8; n]`: a zeroed byte buffer of symbolic length
+            return VOpaque("zeroed_vec", [as_poly(n)])
         raise OutsideFragment("vec![x; n] with symbolic length")
 
     def e_vec_list(self, e, env):
@@ -942,13 +982,18 @@ class Interp:
             self.fail(e, "struct update syntax")
         return VStruct(name, {f["member"]: self.expr(f["e"], env) for f in e["fields"]})
 
-    def call_closure(self, cl, args):
+    def call_closure(self, cl, args, overrides=None):
         env2 = dict_child(cl.env)
+        for n, val in (overrides or {}).items():
+            dict.__setitem__(env2, n, val)
         if len(cl.params) != len(args):
             raise OutsideFragment("closure arity")
         for p, a in zip(cl.params, args):
             self.bind(p, a, env2)
-        return self.expr(cl.body, env2)
+        try:
+            return self.expr(cl.body, env2)
+        except Return as r:
+            return r.v      # `return` inside a closure leaves the closure, not the enclosing function
 
     # -------- calls
     def e_call(self, e, env):
@@ -960,6 +1005,10 @@ class Interp:
         args = [self.expr(a, env) for a in e["args"]]
         name = "::".join(segs[-2:]) if len(segs) >= 2 else segs[0]
         if len(segs) == 1 and segs[0] in env and isinstance(env[segs[0]], VClosure):
+            if ("closure:" + segs[0]) in self.contracts:
+                # a local closure under its own contract (proved by a closure unit): callers see the contract only
+                self.calls.append("closure:" + segs[0])
+                return self.contracts["closure:" + segs[0]](self, env[segs[0]], args)
             return self.call_closure(env[segs[0]], args)
         for key in (path, name):
             if key in self.contracts:
@@ -978,6 +1027,12 @@ class Interp:
             return VArr([], "vec")
         if name == "bool::from":
             return args[0]
+        if segs[-1] == "from_reader" and len(segs) >= 2:
+            # dusk-bytes: `T::from_reader(&mut buf)?` consumes T::SIZE bytes from the front of the reader (ASSUMED contract):
+            # the k-th read of a function is the opaque value read(k, T)
+            k = sum(1 for ev in self.ctx.log if ev and ev[0] == "read")
+            self.ctx.event("read", k, segs[-2])
+            return ("fallible", f"read {k} ({segs[-2]}) fails => Err", VOpaque("read", [k, segs[-2]]))
         if name == "Ok":
             return VOk(args[0])
         if name == "Err":
@@ -1102,6 +1157,8 @@ class Interp:
                 n = min(len(recv.items), len(a.items))
                 return VIter([VTuple([recv.items[i], a.items[i]]) for i in range(n)])
             self.fail(e, "zip on symbolic iterator")
+        if m == "map" and isinstance(recv, VSymIter) and isinstance(args[0], VOpaque) and args[0].name.startswith("fn:"):
+            return VSymIter(Sym(VOpaque("map_each", [recv.sym, VOpaque(args[0].name[3:], [Sym(recv.sym.path + "[*]")])]).canon()))
         if m == "map" and isinstance(recv, VSymIter) and isinstance(args[0], VClosure):
             # map over a collection of unknown length: the closure is run once on the generic element; the result is the
             # uninterpreted collection  map_each(xs, f(xs[*]))  (order preserving, one output per input)
@@ -1149,6 +1206,9 @@ class Interp:
             return recv
         if isinstance(recv, VSymIter) and not args and m in ("max", "min", "count"):
             return VOpaque(m, [recv.sym])
+        if m == "and_then" and isinstance(recv, VOpaque) and len(args) == 1 and isinstance(args[0], VClosure):
+            inner = self.call_closure(args[0], [VOpaque("some_of", [recv])])
+            return VOpaque("and_then", [recv, inner])
         if m in ("min", "max") and len(args) == 1:
             if isinstance(recv, int) and isinstance(args[0], int):
                 return min(recv, args[0]) if m == "min" else max(recv, args[0])
@@ -1166,12 +1226,15 @@ class Interp:
         if m == "for_each" and isinstance(recv, VSymIter) and isinstance(args[0], VClosure):
             # `xs.iter().for_each(|x| B)` over a slice of unknown length: B is executed once on the generic
             # element xs[*]; its transcript events are recorded as ONE event "for every element, in order".
-            saved = self.ctx.log
-            self.ctx.log = []
-            self.call_closure(args[0], [Sym(recv.sym.path + "[*]")])
-            sub = tuple(self.ctx.log)
-            self.ctx.log = saved
-            self.ctx.event("for_each_in_order", recv.sym.path, sub)
+            saved, saved_loop = self.ctx.log, getattr(self, "generic_loop", None)
+            self.ctx.log, self.generic_loop = [], recv.sym
+            try:
+                self.call_closure(args[0], [Sym(recv.sym.path + "[*]")])
+                sub = tuple(self.ctx.log)
+            finally:
+                self.ctx.log, self.generic_loop = saved, saved_loop
+            if sub:
+                self.ctx.event("for_each_in_order", recv.sym.path, sub)
             return UNIT
         if m == "for_each" and isinstance(recv, VIter) and isinstance(args[0], VClosure):
             for x in recv.items:
@@ -1191,10 +1254,16 @@ class Interp:
             return UNIT
         if m in ("extend_from_slice", "extend") and isinstance(recv, VArr):
             a = args[0]
-            if isinstance(a, (VArr, VIter)):
+            if getattr(self, "generic_loop", None) is not None:
+                recv.items.append(VOpaque("for_each_extended", [self.generic_loop, a]))
+                return UNIT
+            if isinstance(a, (VArr, VIter)) and recv.kind != "bytes":
                 recv.items.extend(a.items)
                 return UNIT
-            self.fail(e, "extend with symbolic collection")
+            # a byte vector being assembled: every extend appends one SECTION (its content is the argument's bytes)
+            recv.kind = "bytes"
+            recv.items.append(VOpaque("section", [a]))
+            return UNIT
         if m == "copy_from_slice" and isinstance(recv, VArr) and isinstance(args[0], VArr):
             if len(recv.items) != len(args[0].items):
                 raise OutsideFragment(f"copy_from_slice length mismatch {len(recv.items)} vs {len(args[0].items)} (would panic)")
@@ -1388,7 +1457,13 @@ class Unit:
     """
 
     def __init__(self, name, file, fn, params, contract, outputs, consts=None, callee_keys=(), doc="", replay=None,
-                 trace_only=False, tracked=()):
+                 trace_only=False, tracked=(), closure=None, closure_params=(), closure_env=None, path_dependent=False):
+        # closure unit: `fn` is the enclosing function, `closure` the name of a `let NAME = |..| ..` in it; the function is run
+        # up to that statement, then the CLOSURE BODY is run on closure_params (free variables listed in closure_env are replaced
+        # by fresh symbols, all others keep the value the prefix of the function gave them) and compared with the contract
+        self.closure, self.closure_params, self.closure_env = closure, list(closure_params), dict(closure_env or {})
+        # path_dependent: the contract is evaluated once per code path and may ask it.decided(<canon of a condition>)
+        self.path_dependent = path_dependent
         self.trace_only, self.tracked = trace_only, tuple(tracked)
         self.name, self.file, self.fn = name, file, fn
         self.params, self.contract, self.outputs = params, contract, outputs
@@ -1429,11 +1504,27 @@ def run_unit(root, unit, contracts, seed=0, perturb=None):
             else:
                 it1.bind(sp["pat"], val, env)
             args1.append(val)
+        it1.capture_closure = unit.closure
         try:
             try:
                 res1 = it1.block(ast["body"], env)
+                if unit.closure:
+                    raise AstLost(f"{unit.fn}: no `let {unit.closure} = |..|` closure found")
             except Return as r:
+                if unit.closure:
+                    raise AstLost(f"{unit.fn}: returned before the closure `{unit.closure}` was defined")
                 res1 = r.v
+            except ClosureCaptured as cc:
+                it1.capture_closure = None
+                ctx1.log.clear()
+                ctx1.exits.clear()
+                cargs = [mk() for (_n, mk) in unit.closure_params]
+                over = {n: mk() for n, mk in unit.closure_env.items()}
+                for n in over:
+                    if n not in cc.cl.env:
+                        raise AstLost(f"{unit.fn}::{unit.closure}: free variable `{n}` is not in scope any more")
+                res1 = it1.call_closure(cc.cl, cargs, over)
+                args1 = cargs
         except RecursionError:
             raise OutsideFragment("recursion limit")
         return res1, args1, ctx1, it1
@@ -1452,17 +1543,25 @@ def run_unit(root, unit, contracts, seed=0, perturb=None):
                 raise OutsideFragment(f"more than {MAX_PATHS} paths")
             continue
         paths.append(r)
-    # ---- contract (single path)
-    ctx2 = Ctx()
-    ctx2.is_contract = True
-    it2 = Interp(ctx2, contracts, consts, src_name=f"contract of {unit.name}")
-    args2 = [mk() for (_n, mk) in unit.params]
-    recv2 = args2[0] if unit.params and unit.params[0][0] == "self" else None
-    rest2 = args2[1:] if recv2 is not None else args2
-    res2 = unit.contract(it2, recv2, rest2)
-    out2 = unit.outputs(res2, args2, ctx2)
-    if perturb:
-        out2 = perturb(out2)
+    # ---- contract (single path; per code path for path-dependent contracts)
+    def run_contract(pcs):
+        ctx2 = Ctx()
+        ctx2.is_contract = True
+        it2 = Interp(ctx2, contracts, consts, src_name=f"contract of {unit.name}")
+        dec = {canon(c): t for c, t in pcs}
+        it2.decided = lambda key: dec.get(key)
+        plist = unit.closure_params if unit.closure else unit.params
+        args2 = [mk() for (_n, mk) in plist]
+        recv2 = args2[0] if plist and plist[0][0] == "self" else None
+        rest2 = args2[1:] if recv2 is not None else args2
+        if unit.closure:
+            recv2 = {n: mk() for n, mk in unit.closure_env.items()}
+        res2 = unit.contract(it2, recv2, rest2)
+        o2 = unit.outputs(res2, args2, ctx2)
+        if perturb:
+            o2 = perturb(o2)
+        return o2
+    out2 = None if unit.path_dependent else run_contract([])
     obs = []
     calls = []
     worst = {}   # key -> (ok, detail, cex, undecided?)
@@ -1470,6 +1569,8 @@ def run_unit(root, unit, contracts, seed=0, perturb=None):
         calls += it1.calls
         out1 = unit.outputs(res1, args1, ctx1)
         pcs = it1.path_conds
+        if unit.path_dependent:
+            out2 = run_contract(pcs)
         pc_txt = " && ".join(("" if t else "!") + canon(c) for c, t in pcs)
         keys = list(out2.keys()) + [k for k in out1.keys() if k not in out2]
         for k in keys:
